@@ -1,17 +1,10 @@
 (* SplitSpecProofs.v — facts about the level-table specification itself:
    the encoding of a value denotes that value, and no byte string denoting
    a value is shorter than the encoder's (canonical = shortest). *)
-Require Import VV.Base VV.BaseProofs VV.Split VV.SplitSpec VV.SplitLemmas VV.SplitProofs VV.Split16Proofs.
+Require Import VV.Base VV.BaseProofs VV.Split VV.SplitSpec VV.SplitLemmas VV.SplitSpecLemmas VV.SplitProofs.
 From Coq Require Import Lia ZifyBool ZifyN ZifyNat.
 Local Open Scope N_scope.
 Ltac Zify.zify_post_hook ::= Z.div_mod_to_equations.
-
-Lemma payload_ext rest n : bytes_ok rest -> length rest = n -> of_le rest < 256 ^ N.of_nat n.
-Proof. intros H <-. apply of_le_lt. exact H. Qed.
-Lemma payload_emb rest n : bytes_ok rest -> length rest = n -> of_be rest < 256 ^ N.of_nat n.
-Proof.
-  intros H <-. unfold of_be. rewrite <- (rev_length rest). apply of_le_lt. apply bytes_ok_rev. exact H.
-Qed.
 
 Lemma lv_match_split b0 : find (fun l => lv_match l b0) split_table =
   if b0 / 64 =? 0 then Some (mk_level 0 Embed 0 0)
@@ -27,37 +20,7 @@ Lemma lv_match_split b0 : find (fun l => lv_match l b0) split_table =
   else None.
 Proof. reflexivity. Qed.
 
-Lemma lv_match_split16 b0 : find (fun l => lv_match l b0) split16_table =
-  if b0 / 64 =? 0 then Some (mk_level 0 Embed 1 0)
-  else if b0 / 64 =? 1 then Some (mk_level 64 Embed 2 16383)
-  else if b0 / 64 =? 2 then Some (mk_level 128 Embed 3 4210686)
-  else if b0 =? 196 then Some (mk_level 196 Ext 4 1077952509)
-  else if b0 =? 197 then Some (mk_level 197 Ext 5 1077952509)
-  else if b0 =? 198 then Some (mk_level 198 Ext 6 1077952509)
-  else if b0 =? 199 then Some (mk_level 199 Ext 7 1077952509)
-  else if b0 =? 200 then Some (mk_level 200 Ext 8 1077952509)
-  else None.
-Proof. reflexivity. Qed.
-
-Ltac step :=
-  match goal with
-  | |- context [if ?c then Some (mk_level ?a ?b ?n ?d) else _] => destruct c eqn:?E
-  end.
-
 (* ---------------- shortest ---------------- *)
-Ltac finish_short chain_lemma chain :=
-  let EL := fresh "EL" in let EV := fresh "EV" in let HX := fresh "HX" in
-  cbv beta iota; cbn [lv_nbytes lv_kind_of lv_base];
-  match goal with |- context [(length ?r =? ?n)%nat] => destruct (length r =? n)%nat eqn:EL end;
-  [|discriminate]; apply Nat.eqb_eq in EL;
-  match goal with |- context [if ?v <=? U64MAX then _ else _] => destruct (v <=? U64MAX) eqn:EV end;
-  [|discriminate];
-  intro HX; apply some_inj in HX; subst;
-  match goal with Hr : bytes_ok ?r |- _ =>
-    pose proof (payload_ext r _ Hr EL); pose proof (payload_emb r _ Hr EL) end;
-  unfold U64MAX in EV; norm256; rewrite chain_lemma by lia; unfold chain;
-  cbn [length]; rewrite EL; kill_ifs; lia.
-
 Theorem split_shortest b x : bytes_ok b -> split_denote b = Some x ->
   split_length x <= N.of_nat (length b).
 Proof.
@@ -68,22 +31,7 @@ Proof.
   discriminate.
 Qed.
 
-Theorem split16_shortest b x : bytes_ok b -> split16_denote b = Some x ->
-  split16_length x <= N.of_nat (length b).
-Proof.
-  intro Hb. destruct b as [|b0 rest]; [discriminate|].
-  assert (Hrest : bytes_ok rest) by (inversion Hb; assumption). clear Hb.
-  unfold split16_denote, lv_denote. rewrite lv_match_split16.
-  do 8 (step; [finish_short split16_length_chain split16_len_chain|]).
-  discriminate.
-Qed.
-
 (* ---------------- the encoding denotes the value ---------------- *)
-Ltac finish_den :=
-  cbv beta iota; cbn [lv_nbytes lv_kind_of lv_base length];
-  rewrite ?length_le_bytes; rewrite ?Nat.eqb_refl; cbn [Nat.eqb]; cbv iota;
-  unfold U64MAX, of_be; cbn [rev app of_le]; norm256.
-
 Theorem split_denote_spec x : x < 18446744073709551616 -> split_denote (split_spec x) = Some x.
 Proof.
   intro Hx. destruct (split_classify x Hx) as [H|H|k Hk H Hw Hlt Hge].
@@ -102,31 +50,6 @@ Proof.
     all: try (finish_den; rewrite V; kill_ifs; f_equal; lia).
 Qed.
 
-Theorem split16_denote_spec x : x < 18446744073709551616 -> split16_denote (split16_spec x) = Some x.
-Proof.
-  intro Hx. destruct (split16_classify x Hx) as [H|H|H|k Hk H Hw Hlt Hge].
-  - rewrite split16_spec_0 by exact H. unfold split16_denote, lv_denote. rewrite lv_match_split16.
-    destruct (x / 256 / 64 =? 0) eqn:E; [|lia]. finish_den. kill_ifs. f_equal. lia.
-  - rewrite split16_spec_1 by exact H. unfold split16_denote, lv_denote. rewrite lv_match_split16.
-    destruct ((64 + (x - 16383) / 65536) / 64 =? 0) eqn:E; [lia|].
-    destruct ((64 + (x - 16383) / 65536) / 64 =? 1) eqn:E1; [|lia]. finish_den. kill_ifs. f_equal. lia.
-  - rewrite split16_spec_2 by exact H. unfold split16_denote, lv_denote. rewrite lv_match_split16.
-    destruct ((128 + (x - 4210686) / 16777216) / 64 =? 0) eqn:E; [lia|].
-    destruct ((128 + (x - 4210686) / 16777216) / 64 =? 1) eqn:E1; [lia|].
-    destruct ((128 + (x - 4210686) / 16777216) / 64 =? 2) eqn:E2; [|lia].
-    finish_den. kill_ifs. f_equal. lia.
-  - rewrite (split16_spec_var x k) by (assumption || lia).
-    pose proof (of_le_le_bytes_small k (x - 1077952509) Hlt) as V.
-    unfold split16_denote, lv_denote. rewrite lv_match_split16. clear Hw Hge.
-    assert (C : (k = 4 \/ k = 5 \/ k = 6 \/ k = 7 \/ k = 8)%nat) by lia.
-    destruct C as [C|[C|[C|[C|C]]]]; subst k;
-      match goal with |- context [192 + N.of_nat ?n] =>
-        let r := eval vm_compute in (192 + N.of_nat n) in change (192 + N.of_nat n) with r end;
-      cbv beta iota; cbn [N.div N.eqb Pos.eqb];
-      repeat (step; [try discriminate|try discriminate]).
-    all: try (finish_den; rewrite V; kill_ifs; f_equal; lia).
-Qed.
-
 (* one encoding per value: the encoder is injective *)
 Theorem split_spec_injective x y : x < 18446744073709551616 -> y < 18446744073709551616 ->
   split_spec x = split_spec y -> x = y.
@@ -134,40 +57,8 @@ Proof.
   intros Hx Hy E. pose proof (split_denote_spec x Hx) as A. rewrite E, (split_denote_spec y Hy) in A.
   congruence.
 Qed.
-Theorem split16_spec_injective x y : x < 18446744073709551616 -> y < 18446744073709551616 ->
-  split16_spec x = split16_spec y -> x = y.
-Proof.
-  intros Hx Hy E. pose proof (split16_denote_spec x Hx) as A. rewrite E, (split16_denote_spec y Hy) in A.
-  congruence.
-Qed.
-
 (* ---------------- the decoders compute the specification's meaning on
    EVERY well-formed stream (canonical or not), at any address ---------------- *)
-Ltac open_level :=
-  let EL := fresh "EL" in let EV := fresh "EV" in let HX := fresh "HX" in
-  cbv beta iota; cbn [lv_nbytes lv_kind_of lv_base];
-  match goal with |- context [(length ?r =? ?n)%nat] => destruct (length r =? n)%nat eqn:EL end;
-  [|discriminate]; apply Nat.eqb_eq in EL;
-  match goal with |- context [if ?v <=? U64MAX then _ else _] => destruct (v <=? U64MAX) eqn:EV end;
-  [|discriminate];
-  intro HX; apply some_inj in HX; unfold U64MAX in EV.
-
-Ltac fin_ext lemma :=
-  open_level;
-  match goal with H : (?b0 =? _) = true |- _ => apply N.eqb_eq in H; subst b0 end;
-  match goal with
-  | EL : length ?rest = ?k, Hr : bytes_ok ?rest |- context [split_get_at (?pre ++ _ ++ ?tl) _] =>
-      let A := fresh "A" in
-      destruct (lemma pre tl k rest) as (A & _); [lia | exact EL | exact Hr | lia |];
-      cbn [N.of_nat Pos.of_succ_nat Pos.succ N.add Pos.add] in A; rewrite A;
-      cbn [length]; rewrite EL; subst; f_equal; f_equal; lia
-  | EL : length ?rest = ?k, Hr : bytes_ok ?rest |- context [split16_get_at (?pre ++ _ ++ ?tl) _] =>
-      let A := fresh "A" in
-      destruct (lemma pre tl k rest) as (A & _); [lia | exact EL | exact Hr | lia |];
-      cbn [N.of_nat Pos.of_succ_nat Pos.succ N.add Pos.add] in A; rewrite A;
-      cbn [length]; rewrite EL; subst; f_equal; f_equal; lia
-  end.
-
 Theorem split_get_denote pre b tl x : bytes_ok b -> split_denote b = Some x ->
   split_get_at (pre ++ b ++ tl) (Z.of_nat (length pre)) = Some (N.of_nat (length b), x).
 Proof.
@@ -189,35 +80,3 @@ Proof.
   discriminate.
 Qed.
 
-Theorem split16_get_denote pre b tl x : bytes_ok b -> split16_denote b = Some x ->
-  split16_get_at (pre ++ b ++ tl) (Z.of_nat (length pre)) = Some (N.of_nat (length b), x).
-Proof.
-  intro Hb. destruct b as [|b0 rest]; [discriminate|].
-  assert (Hrest : bytes_ok rest) by (inversion Hb; assumption). clear Hb.
-  unfold split16_denote, lv_denote. rewrite lv_match_split16.
-  step.
-  { open_level. destruct rest as [|r [|]]; try discriminate. subst x.
-    unfold of_be. cbn [of_le rev app]. norm256.
-    assert (Hr : r < 256) by (inversion Hrest; assumption).
-    destruct (split16_get_0 pre tl b0 r) as (A & _); [lia|lia|]. cbn [app] in A |- *. rewrite A.
-    f_equal. f_equal. lia. }
-  step.
-  { open_level. destruct rest as [|r [|s [|]]]; try discriminate. subst x.
-    unfold of_be. cbn [of_le rev app]. norm256.
-    assert (Hr : r < 256) by (inversion Hrest; assumption).
-    assert (Hs : s < 256) by (inversion Hrest as [|? ? ? H2]; inversion H2; assumption).
-    replace b0 with (64 + b0 mod 64) at 1 by lia.
-    destruct (split16_get_1 pre tl (b0 mod 64) r s) as (A & _); [lia|lia|lia|]. cbn [app] in A |- *. rewrite A.
-    f_equal. f_equal. lia. }
-  step.
-  { open_level. destruct rest as [|r [|s [|t [|]]]]; try discriminate. subst x.
-    unfold of_be. cbn [of_le rev app]. norm256.
-    assert (Hr : r < 256) by (inversion Hrest; assumption).
-    assert (Hs : s < 256) by (inversion Hrest as [|? ? ? H2]; inversion H2; assumption).
-    assert (Ht : t < 256) by (inversion Hrest as [|? ? ? H2]; inversion H2 as [|? ? ? H3]; inversion H3; assumption).
-    replace b0 with (128 + b0 mod 64) at 1 by lia.
-    destruct (split16_get_2 pre tl (b0 mod 64) r s t) as (A & _); [lia|lia|lia|lia|]. cbn [app] in A |- *. rewrite A.
-    f_equal. f_equal. lia. }
-  do 5 (step; [fin_ext split16_get_var|]).
-  discriminate.
-Qed.
